@@ -12,8 +12,8 @@ import (
 	"time"
 
 	"connectrpc.com/conformance/internal"
-	"connectrpc.com/conformance/internal/tracer"
 	conformancev1 "connectrpc.com/conformance/internal/gen/proto/go/connectrpc/conformance/v1"
+	"connectrpc.com/conformance/internal/tracer"
 )
 
 // VerifC12Line is one message the code under test sent to its printer.
@@ -97,7 +97,9 @@ func VerifC12NewServer() *VerifC12Server { return verifC12NewServer(false, false
 // VerifC12NewServerOpts: stderr as VerifC12NewServerStderr; traced: the handler is wrapped the
 // way createServer wraps it when the server was given a tracer - tracer.TracingHandler AROUND
 // referenceServerChecks, so the checks see the tracer's request (clone, traced body).
-func VerifC12NewServerOpts(stderr, traced bool) *VerifC12Server { return verifC12NewServer(stderr, traced) }
+func VerifC12NewServerOpts(stderr, traced bool) *VerifC12Server {
+	return verifC12NewServer(stderr, traced)
+}
 
 // VerifC12NewServerStderr is VerifC12NewServer with the printer the real process uses:
 // internal.NewPrinter around the stderr stream (run() in server.go), here a buffer. What the
